@@ -510,7 +510,12 @@ impl Cw20Scen {
                 al.push(format!("{}>{}:{}:{}", o, s, amt, e));
             }
             // pre-0.14 versions (the state really lacks the spender map); newer-than-current ones must be refused
-            let ver = *rng.pick(&["0.13.4", "0.9.0", "0.1.0", "0.13.99", "0.13.4", "2.0.1", "3.1.0"]);
+            // pre-release tags sort below their release: `0.14.0-beta` still lacks the spender map, `2.0.1-alpha` is newer
+            // than the code (versions from 0.14.0 up to the code's would need a state that has the spender map)
+            let ver = *rng.pick(&[
+                "0.13.4", "0.9.0", "0.1.0", "0.13.99", "0.13.4", "2.0.1", "3.1.0", "0.13.0-rc.1", "0.10.0-soon4", "0.14.0-beta",
+                "0.8.0-rc1", "2.0.1-alpha",
+            ]);
             let name = if rng.chance(1, 10) { "crates.io:other" } else { "crates.io:cw20-base" };
             let mint = if mint.starts_with('-') && mint != "-" { "-".to_string() } else { mint };
             format!("inst_legacy name={} ver={} bal={} mint={} cap={} allow={}", name, ver, bal.join(","), mint, cap, al.join(","))
